@@ -1,8 +1,11 @@
 (* Properties/C12.v - ToUnicode / ToASCII mutually inverse on accepted names.  Only statements,
-   closed by `exact`.  The full statement is C12_statement (Proofs/Idna_Hyp.v), relative to AdapterOK and
-   the Punycode round trip PunyRT, outside Known_C12; see theorem_notes in tools/props_d/C12.py. *)
+   closed by `exact`.  The full statement C12_statement (Proofs/Idna_Hyp.v; relative to AdapterOK and the Punycode
+   round trip PunyRT, outside Known_C12) is REFUTED as written (C12_statement_refuted: F-C10-1, a label whose Punycode
+   form is longer than 2000); the corrected statement C12_statement2 (Proofs/Idna_C10b_Stmt.v, also outside
+   Known_C10_long) is not proved; see theorem_notes in tools/props_d/C12.py. *)
 From RU Require Import Base.Prelude Base.Utf8 Base.Utf8Facts Base.U32_c13 Gen.Tables Model.Punycode Model.Uts46
-  Proofs.Idna_Sim Proofs.Idna_Api Proofs.Idna_Known Proofs.Idna_Hyp Proofs.Idna_C12 Proofs.Idna_Tables Proofs.Idna_PunyRT.
+  Proofs.Idna_Sim Proofs.Idna_Api Proofs.Idna_Known Proofs.Idna_Hyp Proofs.Idna_C12 Proofs.Idna_Tables Proofs.Idna_PunyRT
+  Proofs.Idna_C10b_Long Proofs.Idna_C10b_Stmt Proofs.Idna_C10b_AsciiInner Proofs.Idna_C10b_AsciiWalk Proofs.Idna_C12_Ascii.
 
 (* the four clauses on names of the fastest tier (lower-case letters and dots), every adapter *)
 Theorem C12_fast_partial : forall A cfg d deny hy p, bytes d -> fast_tier d d = None ->
@@ -21,6 +24,35 @@ Check C12_fast_partial : forall A cfg d deny hy p, bytes d -> fast_tier d d = No
   to_unicode A cfg (utf8_encode u) deny hy = UI true u false /\
   to_ascii A cfg (utf8_encode (ui_text (to_user_interface A cfg d deny hy p))) deny hy DIgnore = Ok (true, a).
 Print Assumptions C12_fast_partial.
+
+(* all four clauses (u_of_a, a_of_u, u_idem, ui) on the adapter-free class AN d = every label of d is ASCII and does not
+   start with xn-- (any case): EVERY adapter, every deny list the API can build, every hyphen mode, every display
+   policy, debug assertions on or off.  There ToASCII, ToUnicode and to_user_interface all return the ASCII
+   lower-casing of the name *)
+Theorem C12_an : forall A cfg d deny hy b a, AN d -> valid_deny deny ->
+  to_ascii A cfg d deny hy DIgnore = Ok (b, a) ->
+  let u := ui_text (to_unicode A cfg d deny hy) in
+  a = map to_lower d /\ u = a /\ ui_err (to_unicode A cfg d deny hy) = false /\
+  (ui_text (to_unicode A cfg a deny hy) = u /\ ui_err (to_unicode A cfg a deny hy) = false) /\
+  (exists b', to_ascii A cfg (utf8_encode u) deny hy DIgnore = Ok (b', a)) /\
+  (ui_text (to_unicode A cfg (utf8_encode u) deny hy) = u /\ ui_err (to_unicode A cfg (utf8_encode u) deny hy) = false) /\
+  (forall p, exists b', to_ascii A cfg (utf8_encode (ui_text (to_user_interface A cfg d deny hy p))) deny hy DIgnore = Ok (b', a)).
+Proof. exact c12_an. Qed.
+Check C12_an : forall A cfg d deny hy b a, AN d -> valid_deny deny ->
+  to_ascii A cfg d deny hy DIgnore = Ok (b, a) ->
+  let u := ui_text (to_unicode A cfg d deny hy) in
+  a = map to_lower d /\ u = a /\ ui_err (to_unicode A cfg d deny hy) = false /\
+  (ui_text (to_unicode A cfg a deny hy) = u /\ ui_err (to_unicode A cfg a deny hy) = false) /\
+  (exists b', to_ascii A cfg (utf8_encode u) deny hy DIgnore = Ok (b', a)) /\
+  (ui_text (to_unicode A cfg (utf8_encode u) deny hy) = u /\ ui_err (to_unicode A cfg (utf8_encode u) deny hy) = false) /\
+  (forall p, exists b', to_ascii A cfg (utf8_encode (ui_text (to_user_interface A cfg d deny hy p))) deny hy DIgnore = Ok (b', a)).
+Print Assumptions C12_an.
+
+Example C12_an_premises_hold :
+  AN [65; 45; 98; 46; 88; 110; 45; 99; 46] /\ valid_deny DENY_URL /\
+  to_ascii toy true [65; 45; 98; 46; 88; 110; 45; 99; 46] DENY_URL HCheck DIgnore = Ok (false, [97; 45; 98; 46; 120; 110; 45; 99; 46]) /\
+  to_unicode toy true [65; 45; 98; 46; 88; 110; 45; 99; 46] DENY_URL HCheck = UI false [97; 45; 98; 46; 120; 110; 45; 99; 46] false.
+Proof. exact c12_an_premises_hold. Qed.
 
 (* whenever ToASCII accepts, ToUnicode reports no error - or it returned Passthrough-with-errors
    (F-C11-2, only without debug assertions); every adapter *)
@@ -75,6 +107,32 @@ Check C12_refuted : exists A d deny hy u,
   to_ascii A false (utf8_encode u) deny hy DIgnore = Err /\
   ui_err (to_unicode A false (utf8_encode u) deny hy) = true.
 Print Assumptions C12_refuted.
+
+(* F-C10-1: outside Known_C12 and Known_C11 the round trip fails as well - C12_statement is false for an adapter that
+   satisfies AdapterOK: ToASCII accepts a label of 1000 ideographs, ToUnicode of the original shows it without error,
+   ToUnicode (and to_user_interface) of the ASCII form report an error (more than 2000 characters after xn--) *)
+Theorem C12_statement_refuted : exists A cfg, AdapterOK A /\ ~ C12_statement A cfg.
+Proof. exact c12_statement_refuted. Qed.
+Check C12_statement_refuted : exists A cfg, AdapterOK A /\ ~ C12_statement A cfg.
+Print Assumptions C12_statement_refuted.
+
+Theorem C12_long_witness :
+  to_ascii lowad false W_C10_long DENY_EMPTY HAllow DIgnore = Ok (false, W_C10_long_A) /\
+  Known_C10_long W_C10_long_A = true /\
+  to_unicode lowad false W_C10_long DENY_EMPTY HAllow = UI false W_C10_long_U false /\
+  ui_err (to_unicode lowad false W_C10_long_A DENY_EMPTY HAllow) = true /\
+  ui_err (to_user_interface lowad false W_C10_long_A DENY_EMPTY HAllow never_unicode) = true.
+Proof.
+  exact (conj (proj1 (proj2 (proj2 (proj2 w_c10_long)))) (conj (proj1 (proj2 (proj2 (proj2 (proj2 (proj2 w_c10_long))))))
+          w_c10_long_unicode)).
+Qed.
+Check C12_long_witness :
+  to_ascii lowad false W_C10_long DENY_EMPTY HAllow DIgnore = Ok (false, W_C10_long_A) /\
+  Known_C10_long W_C10_long_A = true /\
+  to_unicode lowad false W_C10_long DENY_EMPTY HAllow = UI false W_C10_long_U false /\
+  ui_err (to_unicode lowad false W_C10_long_A DENY_EMPTY HAllow) = true /\
+  ui_err (to_user_interface lowad false W_C10_long_A DENY_EMPTY HAllow never_unicode) = true.
+Print Assumptions C12_long_witness.
 
 (* regenerated Punycode prefix test (case-insensitive xn--) and length caps *)
 Theorem C12_consts :
